@@ -1,0 +1,118 @@
+//go:build verif
+
+package rpc
+
+import (
+	"slices"
+
+	am "github.com/pancsta/asyncmachine-go/pkg/machine"
+)
+
+// Verification-harness accessors (only with -tags verif). They expose the
+// server's update encoder and the client's decoder without changing them.
+
+// VerifSnapshot is a copy of the server-side tracer data.
+type VerifSnapshot struct {
+	Time           am.Time
+	TrackedTimeSum uint64
+	QueueTick      uint64
+	MachTick       uint32
+	Checksum       uint8
+	Tracked        am.S
+	TrackedIdxs    []int
+}
+
+func verifSnap(d *tracerData) *VerifSnapshot {
+	if d == nil {
+		return nil
+	}
+	return &VerifSnapshot{
+		Time:           slices.Clone(d.mTime),
+		TrackedTimeSum: d.mTrackedTimeSum,
+		QueueTick:      d.queueTick,
+		MachTick:       d.machTick,
+		Checksum:       d.checksum,
+		Tracked:        slices.Clone(d.tracked),
+		TrackedIdxs:    slices.Clone(d.trackedIdxs),
+	}
+}
+
+// VerifLatest returns a copy of the latest snapshot taken by the source tracer.
+func (s *Server) VerifLatest() *VerifSnapshot {
+	return verifSnap(s.tracer.DataLatest())
+}
+
+// VerifLastPush returns a copy of the snapshot the server believes the client
+// holds.
+func (s *Server) VerifLastPush() *VerifSnapshot {
+	s.lockExport.Lock()
+	defer s.lockExport.Unlock()
+	return verifSnap(s.lastPushData)
+}
+
+// VerifMakeUpdate derives the update message from the latest snapshot against
+// the last pushed one, exactly like pushUpdateLatest / newMsgMutation do, and
+// memorizes the snapshot as pushed. Nothing is sent. Returns nil when the
+// tracer has no data yet.
+func (s *Server) VerifMakeUpdate() (*MsgSrvUpdate, *VerifSnapshot) {
+	s.lockExport.Lock()
+	defer s.lockExport.Unlock()
+
+	data := s.tracer.DataLatest()
+	if data == nil {
+		return nil, nil
+	}
+	update := calcUpdate(s.syncSchema, data, s.lastPushData,
+		s.syncShallowClocks)
+	s.storeLastPush(data)
+
+	return update, verifSnap(data)
+}
+
+// VerifMakeUpdateMutations is like VerifMakeUpdate for per-mutation syncing.
+func (s *Server) VerifMakeUpdateMutations() (*MsgSrvUpdateMuts, *VerifSnapshot) {
+	s.lockExport.Lock()
+	defer s.lockExport.Unlock()
+
+	data := s.tracer.DataLatest()
+	if data == nil {
+		return nil, nil
+	}
+	updates := calcUpdateMutations(s.syncSchema, s.tracer.DataQueue(),
+		s.lastPushData)
+	s.storeLastPush(data)
+
+	return updates, verifSnap(data)
+}
+
+// VerifTracked returns the states tracked by the server's tracer.
+func (s *Server) VerifTracked() am.S {
+	s.lockCollection.Lock()
+	defer s.lockCollection.Unlock()
+	return slices.Clone(s.tracer.trackedStates)
+}
+
+// VerifClockUpdate applies an update message the way RemoteUpdate does and
+// returns the checksum verdict.
+func (c *Client) VerifClockUpdate(update *MsgSrvUpdate) bool {
+	return c.clockUpdate(update, false)
+}
+
+// VerifClockUpdateMutations applies a per-mutation update message and returns
+// the checksum verdict.
+func (c *Client) VerifClockUpdateMutations(updates *MsgSrvUpdateMuts) bool {
+	return c.clockUpdateMutations(updates)
+}
+
+// VerifClockFromUpdate runs the decoder only.
+func (c *Client) VerifClockFromUpdate(
+	update *MsgSrvUpdate, timeBefore am.Time, qTickBefore uint64,
+	machTickBefore uint32,
+) (am.Time, uint64, uint32) {
+	return c.clockFromUpdate(update, timeBefore, qTickBefore, machTickBefore)
+}
+
+// VerifTracked returns the states tracked by the client.
+func (c *Client) VerifTracked() am.S {
+	return slices.Clone(c.trackedStates)
+}
